@@ -52,6 +52,33 @@ def run_design(ctx):
     return hist, io
 
 
+class Scratch:
+    """scratch directories for the replays: in memory (/dev/shm) when there is one - creating and
+    removing thousands of small directories is what the replays spend their time on - else under
+    ctx.workdir; removed on exit either way"""
+
+    def __init__(self, ctx):
+        self.ctx, self.base = ctx, None
+
+    def __enter__(self):
+        import tempfile
+
+        try:
+            self.base = tempfile.mkdtemp(prefix="vf_%s_" % self.ctx.prop, dir="/dev/shm")
+        except OSError:
+            self.base = self.ctx.subdir("scratch")
+        return self
+
+    def sub(self, name):
+        p = os.path.join(self.base, name)
+        os.makedirs(p, exist_ok=True)
+        return p
+
+    def __exit__(self, *exc):
+        shutil.rmtree(self.base, ignore_errors=True)
+        return False
+
+
 def quiet(fn, *a, **kw):
     with warnings.catch_warnings():
         warnings.simplefilter("ignore")
@@ -151,6 +178,11 @@ def diff_dirs(a, b):
             if x[k] != y.get(k):
                 return "utterance %d %s: stored %r, specification %r" % (i, k, x[k], y.get(k))
     return None if len(a) == len(b) else "different number of utterances"
+
+
+def all_diffs(a, b):
+    """[(utterance, field, stored, specification)] for two norm_dir directories of equal length"""
+    return [(i, k, x[k], y.get(k)) for i, (x, y) in enumerate(zip(a, b)) for k in x if x[k] != y.get(k)]
 
 
 # ----------------------------------------------------------------------------- info
